@@ -85,8 +85,8 @@ package ecs
 
 //@ func (*storage).Shrink
 //@   serves C15
-//@   requires shrinkShape(s) && cacheEntriesInv(&s.cache)
-//@   loop 1 invariant shape: shrinkShape(s) && cacheEntriesInv(&s.cache) && len(s.tables) == old(len(s.tables))
+//@   requires shrinkShape(s)
+//@   loop 1 invariant shape: shrinkShape(s) && len(s.tables) == old(len(s.tables))
 //@   loop 1 invariant done: forall t int :: 0 <= t && t < __idx ==> !tableHasWork(s, &s.tables[t])
 //@   loop 2 invariant shape: shrinkShape(s) && len(s.tables) == old(len(s.tables)) && 0 <= tableIdx
 //@   loop 2 invariant done: forall t int :: 0 <= t && t < tableIdx && t < len(s.tables) ==> !tableHasWork(s, &s.tables[t])
